@@ -7,6 +7,7 @@ import (
 	"bytes"
 	"crypto/sha256"
 	"fmt"
+	"golang.org/x/sys/unix"
 	"io/fs"
 	"os"
 	"path/filepath"
@@ -115,6 +116,14 @@ func c16Case(cs *Case, auto bool) {
 		o := genSpec(r, SpecGen{Vendor: "other.org", Class: "thing", Marker: "other", Plain: true})
 		must(os.WriteFile(filepath.Join(last, "other.yaml"), specBytes(o, "yaml"), 0o644))
 		must(os.WriteFile(filepath.Join(last, "notes.txt"), []byte("decoy"), 0o644))
+		if chance(r, 50) {
+			// entries that are neither files nor directories, sorting before and after
+			// anything we write: they are ignored, nothing else is because of them
+			unix.Mkfifo(filepath.Join(last, "0-fifo"), 0o600)
+			unix.Mkfifo(filepath.Join(last, "zz-fifo"), 0o600)
+			unix.Mknod(filepath.Join(last, "00-null"), unix.S_IFCHR|0o600, int(unix.Mkdev(1, 3)))
+			c.Count("last_dir_with_special_files", 1)
+		}
 	case "empty":
 		must(os.MkdirAll(last, 0o755))
 	case "missing-nested":
@@ -234,7 +243,11 @@ func c16Case(cs *Case, auto bool) {
 	os.RemoveAll(refDir)
 	// sometimes the target exists already (replace)
 	if chance(r, 30) && !strings.HasPrefix(lastShape, "missing") {
-		switch r.Intn(3) {
+		switch r.Intn(4) {
+		case 3: // a symbolic link under that very name, to a file elsewhere: the link is replaced, its target is not written through
+			must(os.WriteFile(filepath.Join(sandbox, "linked-elsewhere.yaml"), []byte("precious: content\n"), 0o644))
+			must(os.Symlink(filepath.Join(sandbox, "linked-elsewhere.yaml"), expected))
+			c.Count("replaces_a_symbolic_link", 1)
 		case 0:
 			must(os.WriteFile(expected, []byte("old content"), 0o644))
 		case 1: // the new content already, followed by leftovers of a longer, older version
